@@ -246,7 +246,7 @@ def gen_case(rng, dist):
         ",".join("%d=%s" % kv for kv in opts) or "-", init, ";".join(ops), mnc or "-", mxc or "-")
 
 def gen(rng, tier, dist):
-    n = 3000 if tier == "quick" else 160000
+    n = 3000 if tier == "quick" else 220000
     return [gen_case(rng, dist) for _ in range(n)]
 
 # ----------------------------------------------------------------- Spec oracle
